@@ -155,8 +155,25 @@ func c16ts(c *Ctx) {
 				lg.SetUTCMode()
 			}
 		}
+		setForm := "-"
 		if layout != "" {
-			lg.SetTimeFormat(layout)
+			// the setter takes several layouts: the last non-empty one is the logger's layout
+			switch r.Intn(6) {
+			case 0:
+				o := gen.Pick(r, c16layouts)
+				lg.SetTimeFormat(o, layout)
+				setForm = "SetTimeFormat(other, layout)"
+			case 1:
+				lg.SetTimeFormat(layout, "")
+				setForm = "SetTimeFormat(layout, \"\")"
+			case 2:
+				lg.SetTimeFormat("", layout)
+				setForm = "SetTimeFormat(\"\", layout)"
+			default:
+				lg.SetTimeFormat(layout)
+				setForm = "SetTimeFormat(layout)"
+			}
+			c.R.Distinct("set_time_format_forms", setForm)
 		}
 		// the same settings reached through a derived logger instead: parent.WithTimeFormat(..) / parent.WithUTCMode(..),
 		// and a SIBLING derived from the same parent with other arguments before the first one is used
@@ -189,7 +206,7 @@ func c16ts(c *Ctx) {
 		}
 		ts := c16instant(r, zones)
 		evs := capture(log, func() { lg.WriteThru(bg, slog.InfoLevel, ts, thePC, "tsprobe", nil) })
-		desc := map[string]any{"derived": derived, "earlier_record_under": earlier, "after_saveflags_window": window, "format": f.String(), "flags": flagNames(fl), "utc_mode": []string{"unset", "local (SetUTCMode(false))", "utc"}[utc], "logger_layout": layout, "instant": ts.Format(time.RFC3339Nano), "zone": ts.Location().String()}
+		desc := map[string]any{"set_form": setForm, "derived": derived, "earlier_record_under": earlier, "after_saveflags_window": window, "format": f.String(), "flags": flagNames(fl), "utc_mode": []string{"unset", "local (SetUTCMode(false))", "utc"}[utc], "logger_layout": layout, "instant": ts.Format(time.RFC3339Nano), "zone": ts.Location().String()}
 		if len(evs) != 1 {
 			c.R.Violation(idx, "one-write", "C16/one-write", fmtEvents(evs), desc)
 			return
